@@ -162,7 +162,20 @@ def run_harness(bin, sub, seed, n, tier="quick", extra=(), profile="debug", time
             kind, _, js = line[2:].partition(" ")
             recs.setdefault(kind, []).append(json.loads(js))
     if p.returncode != 0:
-        raise Fail("harness %s %s exited with %d:\n%s" % (bin, sub, p.returncode, p.stderr[-4000:]))
+        err = p.stderr[-4000:]
+        if not err.strip():
+            # the domains silence the panic hook (refusals by panic are caught and counted); when a panic ends the
+            # harness itself - e.g. the code under test left a poisoned lock behind - run once more with the
+            # messages on, so that the report names where the implementation panicked
+            try:
+                q = subprocess.run(cmd, stdout=subprocess.DEVNULL, stderr=subprocess.PIPE, text=True, errors="replace",
+                                   timeout=timeout, env=dict(os.environ, RUST_BACKTRACE="0", RUST_LOG="off",
+                                                             VERIF_LOUD="1", VERIF_PANICS="1"))
+                msgs = [l for l in q.stderr.splitlines() if "panicked at" in l]
+                err = "panics of the run, in order (the last one ended the harness):\n" + "\n".join(msgs[-12:])
+            except Exception as e:      # diagnosis only
+                err = "(no panic message could be collected: %s)" % e
+        raise Fail("harness %s %s exited with %d:\n%s" % (bin, sub, p.returncode, err))
     return recs
 
 
